@@ -65,7 +65,7 @@ KINDS = {"s": [[True, False]], "d": [[True, True, False, False]], "sd": [[True, 
 def ref_qucc(L, exc, params):
     """the definition: product over the excitation classes of exp(T - T^dagger)"""
     from scipy.linalg import expm
-    params = np.asarray(params, dtype=float)
+    params = np.asarray(params, dtype=complex)          # complex cluster amplitudes are part of the definition (T - T^dagger)
     U = np.eye(2 ** L, dtype=complex)
     off = 0
     for kinds in KINDS[exc]:
@@ -160,6 +160,123 @@ def oracle_qucc(ctx, L, exc, params):
     dev = np.abs(U - R).max()
     if dev > 1e-8:
         ctx.fail("qUCC(%s): matrix != prod exp(T - T^dagger) of the cluster operator" % exc, inp, None, "%.3g" % dev)
+    return U
+
+
+# ------------------------------------------------------------------------------ complex cluster amplitudes
+# exp(T - T^dagger) is unitary for ANY complex amplitudes: (T - T^dagger) is anti-Hermitian because the adjoint CONJUGATES
+# them.  Real amplitudes cannot tell a transpose from a conjugate transpose, so every excitation setting also gets complex
+# parameter vectors in every container / dtype a caller may use.
+CPARAM_KINDS = ["generic", "imaginary", "real-in-complex", "hermitian", "i-times-symmetric", "one-hot", "global-phase", "small-imaginary"]
+CPARAM_FORMS = ["list", "array-complex128", "array-complex64", "list-mixed", "tuple", "array-object"]
+
+
+def complex_params(rng, L, exc, kind):
+    """[[re, im], ...] for the excitation setting: one block per excitation class"""
+    parts = []
+    for kinds in KINDS[exc]:
+        k = len(kinds)
+        shape = k * (L,)
+        rnd = lambda: np.array([rng.uniform(-1, 1) for _ in range(L ** k)]).reshape(shape)
+        rev = tuple(reversed(range(k)))
+        if kind == "generic":
+            a = rnd() + 1j * rnd()
+        elif kind == "imaginary":
+            a = 1j * rnd()
+        elif kind == "real-in-complex":
+            a = rnd() + 0j
+        elif kind == "hermitian":                       # t_ij = conj(t_ji), t_ijkl = conj(t_lkji): T = T^dagger, U = 1
+            m = rnd() + 1j * rnd()
+            a = m + m.conj().transpose(rev)
+        elif kind == "i-times-symmetric":               # T^dagger = -T: exponent 2T (a transpose without conjugate gives 0)
+            m = rnd()
+            a = 1j * (m + m.transpose(rev))
+        elif kind == "one-hot":
+            a = np.zeros(shape, dtype=complex)
+            idx = tuple(rng.sample(range(L), 2)) * (k // 2) if L > 1 else (0,) * k
+            a[idx] = complex(rng.uniform(-1, 1), rng.choice([1.0, -0.5, 0.75]))
+        elif kind == "global-phase":
+            a = rnd() * np.exp(1j * rng.uniform(0.3, 2.8))
+        elif kind == "small-imaginary":
+            a = rnd() + 1e-3j * rnd()
+        else:
+            raise KeyError(kind)
+        parts.append(a.reshape(-1))
+    return [[float(v.real), float(v.imag)] for v in np.concatenate(parts)]
+
+
+def complex_container(cp, form):
+    v = [complex(a, b) for a, b in cp]
+    if form == "list":
+        return v
+    if form == "tuple":
+        return tuple(v)
+    if form == "list-mixed":                            # Python floats where the imaginary part is zero
+        return [c.real if c.imag == 0 else c for c in v]
+    if form == "array-complex128":
+        return np.array(v, dtype=np.complex128)
+    if form == "array-complex64":
+        return np.array(v, dtype=np.complex64)
+    if form == "array-object":
+        return np.array(v, dtype=object)
+    raise KeyError(form)
+
+
+def oracle_qucc_complex(ctx, L, exc, cp, form, pkind=""):
+    """qUCC.as_matrix for complex amplitudes: unitary, commutes with N, equals prod exp(T - T^dagger) of the independently built
+    cluster operator; the energy of the state U psi0 is real and inside the spectral range of the particle sector"""
+    import qib
+    from qib.algorithms.vqe.vqe import measure_expectation_statevector
+    inp = {"kind": "qucc-complex", "L": L, "exc": exc, "params": cp, "as": form, "param_kind": pkind}
+    tag = "qUCC(%s), complex amplitudes" % exc
+    ans = qib.algorithms.vqe.ansatz.qUCC(mk_field(L), excitations=exc, embedding="jordan_wigner")
+    try:
+        U = ans.as_matrix(complex_container(cp, form))
+        U = U.toarray() if hasattr(U, "toarray") else np.asarray(U)
+        U = np.asarray(U, dtype=complex)
+    except Exception as e:
+        if form == "array-object":                      # an exotic container may be refused: no matrix, no claim
+            ctx.count("qucc_complex_refused_" + form)
+            return None
+        ctx.fail("%s: as_matrix raises" % tag, inp, "a matrix", repr(e)[:200])
+        return None
+    tol = 2e-5 if form == "array-complex64" else 1e-8   # single-precision amplitudes: single-precision values, exact structure
+    cref = cp
+    if form == "array-complex64":
+        c64 = np.array([complex(a, b) for a, b in cp], dtype=np.complex64)
+        cref = [[float(v.real), float(v.imag)] for v in c64]
+    d = 2 ** L
+    dev = np.abs(U @ U.conj().T - np.eye(d)).max()
+    if not dev <= tol:
+        ctx.fail("%s: matrix not unitary" % tag, inp, "||U U^dag - 1|| = 0", "%.3g" % dev)
+    N = ref_number(L)
+    dev = np.abs(U @ N - N @ U).max()
+    if not dev <= tol:
+        ctx.fail("%s: does not commute with the particle number" % tag, inp, "[U, N] = 0", "%.3g" % dev)
+    R = ref_qucc(L, exc, [complex(a, b) for a, b in cref])
+    dev = np.abs(U - R).max()
+    if not dev <= tol:
+        ctx.fail("%s: matrix != prod exp(T - T^dagger) of the cluster operator" % tag, inp, None, "%.3g" % dev)
+    if all(b == 0 for _, b in cp):
+        Ur = ans.as_matrix(np.array([a for a, _ in cp], dtype=float)).toarray()
+        dev = np.abs(U - Ur).max()
+        if not dev <= tol:
+            ctx.fail("%s: real amplitudes handed over in a complex type give another matrix" % tag, inp, "same matrix", "%.3g" % dev)
+    # energies of ansatz states (as VQE's energy function forms them)
+    ham = qib.operator.FermiHubbardHamiltonian(mk_field(L), -1., 2., False)
+    pauli_ham = qib.transform.jordan_wigner_encode_field_operator(ham.as_field_operator())
+    H = pauli_ham.as_matrix().toarray()
+    for nocc in range(L + 1):
+        idx = [i for i in range(d) if bin(i).count("1") == nocc]
+        w = np.linalg.eigvalsh(H[np.ix_(idx, idx)])
+        init = np.zeros(d, dtype=complex)
+        init[idx] = [np.exp(0.4j * j) for j in range(len(idx))]
+        init /= np.linalg.norm(init)
+        e = complex(measure_expectation_statevector(pauli_ham, U @ init))
+        if abs(e.imag) > max(tol, 1e-8) or e.real < w[0] - 10 * tol or e.real > w[-1] + 10 * tol:
+            ctx.fail("%s: energy of the ansatz state not real or outside the spectral range of the particle sector" % tag,
+                     dict(inp, nocc=nocc), [float(w[0]), float(w[-1])], repr(e))
+            break
     return U
 
 
@@ -739,6 +856,36 @@ def run(ctx):
                "%d of %d qUCC matrices differ from prod expm(T - T^dagger) of the library's own JW cluster matrices; first %r"
                % (len(struct_bad), nstruct, struct_bad[:1]))
 
+    # ---------------------------------------------------------------- complex amplitudes, every container / dtype
+    ctx.rules.append("qUCC with COMPLEX cluster amplitudes, s / d / sd, L = 2, 3 (thorough: s on 4): generic, purely imaginary, real values "
+                     "in a complex type, Hermitian amplitude tensor (U = 1), i x symmetric tensor, one-hot, real vector times a global phase, "
+                     "small imaginary parts; handed over as list / tuple of Python complex, list mixing float and complex, complex128 / "
+                     "complex64 / object arrays: unitary, [U, N] = 0, = prod exp(T - T^dagger) of the independently built cluster operator, "
+                     "real-valued amplitudes in a complex type = the real-parameter matrix, energies of U psi0 real and within the sector range")
+    ncx = 0
+    for exc in ("s", "d", "sd"):
+        for L in ((2, 3, 4) if (ctx.thorough and exc == "s") else (2, 3)):
+            for ki, kind in enumerate(CPARAM_KINDS):
+                if L == 3 and exc != "s" and not ctx.thorough and ki % 3 != ncx % 3:
+                    continue
+                forms = CPARAM_FORMS if (ctx.thorough or (L == 2 and ki < 2)) else [CPARAM_FORMS[(ki + ncx) % len(CPARAM_FORMS)], "array-complex128"]
+                if L == 3 and exc != "s" and not ctx.thorough:
+                    forms = forms[:1]
+                cp = complex_params(rng, L, exc, kind)
+                for form in dict.fromkeys(forms):
+                    ctx.count("qucc_complex_%s_L=%d" % (exc, L))
+                    ctx.count("qucc_complex_as_" + form)
+                    try:
+                        U = oracle_qucc_complex(ctx, L, exc, cp, form, kind)
+                    except Exception as e:
+                        ctx.fail("qUCC(%s), complex amplitudes:exception:%s" % (exc, type(e).__name__),
+                                 {"kind": "qucc-complex", "L": L, "exc": exc, "params": cp, "as": form, "param_kind": kind}, "a matrix", repr(e))
+                        continue
+                    if U is not None:
+                        ctx.evaluations += 1
+                        ctx.nontriv({"kind": "qucc-complex", "L": L, "exc": exc, "param_kind": kind, "as": form, "first": cp[:2]})
+                ncx += 1
+
     ctx.log("start vqe")
     # ---------------------------------------------------------------- optimiser energies (a test, not a proof)
     # (real initial states only: with a complex one scipy's COBYLA rejects the complex-typed energy, see notes/C20.md;
@@ -999,6 +1146,8 @@ def replay(ctx, data):
         oracle_value_history(ctx, inp["n"], inp["strings"], inp["state"], inp["ops"])
     elif k == "qucc-history":
         oracle_qucc_history(ctx, inp["L"], inp["exc"], inp["plist"])
+    elif k == "qucc-complex":
+        oracle_qucc_complex(ctx, inp["L"], inp["exc"], inp["params"], inp["as"], inp.get("param_kind", ""))
     elif k == "cluster":
         T = lib_cluster(inp["L"], inp["kinds"], inp["params"])
         if np.abs(T - ref_cluster(inp["L"], inp["kinds"], inp["params"])).max() > 1e-12:
